@@ -334,8 +334,24 @@ def gen_case(seed, tier, i):
 
 
 def _query(rng, buf, text, nprobes=None):
+    probes = sample_probes(rng, text, nprobes or rng.randint(4, 10))
+    # sticky probes: the same request as at the previous version of this buffer
+    # (an editor re-asks signatures/completions at the cursor after every
+    # keystroke) - the only way a per-position cache can be caught stale
+    nlines = text.count('\n') + 1
+    lines = text.split('\n')
+    keep = []
+    for p in buf.get('last', []):
+        if 'l' in p and (p['l'] > nlines or p['c'] > len(lines[p['l'] - 1])):
+            continue
+        if rng.random() < 0.75:
+            keep.append(p)
+    probes = keep[:6] + probes
+    buf['last'] = [p for p in probes if p['m'] in ('get_signatures', 'complete', 'infer', 'goto', 'help')][:8]
+    # calls are re-asked most often
+    buf['last'].sort(key=lambda p: p['m'] != 'get_signatures')
     return {'op': 'query', 'code': text, 'path': buf['path'], 'project': {'path': '.'},
-            'probes': sample_probes(rng, text, nprobes or rng.randint(4, 10)), 'tree': True, 'buf': buf['name']}
+            'probes': probes, 'tree': True, 'buf': buf['name']}
 
 
 # ---------------------------------------------------------------------------
@@ -378,6 +394,7 @@ class C08(base.Engine):
     }
 
     def execute(self, case):
+        driver.begin_case(case)
         stats = collections.Counter()
         run = run_history(case)
         ops = case['ops']
